@@ -25,7 +25,7 @@ def _up(pairs):
     return [(str(n), str(s).upper()) for n, s in pairs]
 
 
-def variants(text, path, gz_path, crlf_path):
+def variants(text, path, gz_path, crlf_path, pre_path, pre_k):
     from cogent3 import load_seq, load_unaligned_seqs
     from cogent3.parse import genbank as gb
     from cogent3.parse.sequence import get_parser
@@ -52,6 +52,13 @@ def variants(text, path, gz_path, crlf_path):
         with open(path, "rt") as fh:
             return mini(fh)
 
+    def at_k(parse):
+        # an open text handle whose preamble lines were already read: parse the remaining lines
+        with open(pre_path, "rt") as fh:
+            for _ in range(pre_k):
+                fh.readline()
+            return parse(fh)
+
     def coll():
         c = load_unaligned_seqs(path, moltype="dna")
         d = c.to_dict()
@@ -70,6 +77,8 @@ def variants(text, path, gz_path, crlf_path):
         ("rich_parser(Path.gz, moltype=dna)", "bytes", True, lambda: rich(gz_path, moltype="dna")),
         ("get_parser('gb')(Path)", "bytes", True, lambda: _up(get_parser("gb")(path))),
         ("MinimalGenbankParser(lines)", "lines", False, old),
+        ("minimal_parser(text handle after consumed preamble lines)", "bytes", True, lambda: at_k(mini)),
+        ("rich_parser(text handle after consumed preamble lines)", "bytes", True, lambda: at_k(rich)),
         ("load_unaligned_seqs(x.gb)", "load", True, coll),
     ], (lambda: _up([(load_seq(path, moltype="dna").name, str(load_seq(path, moltype="dna")))]))
 
@@ -96,7 +105,11 @@ def check_genbank(run, scratch, stats, tlc_emit):
         m = t["model"]
         pred = exp if m["same"] else ([(_s(e["name"]), _s(e["seq"])) for e in m["res"]["recs"]] if m["res"]["ok"] else None)
         base = {"names": [n for n, _ in exp], "lengths": [len(s) for _, s in exp], "text": text, "expected": exp, "class": cls}
-        vs, first = variants(text, path, gz_path, crlf_path)
+        pre = [_s(l) for l in t.get("preamble", [])]
+        pre_k = 1 + i % max(1, len(pre)) if pre else 0
+        pre_path = d / f"r{i}_pre.gb"
+        pre_path.write_text("".join(l + "\n" for l in pre[:pre_k]) + text)
+        vs, first = variants(text, path, gz_path, crlf_path, pre_path, pre_k)
         for vname, group, modelled, thunk in vs:
             got = _call(thunk)
             ncalls += 1
@@ -117,7 +130,7 @@ def check_genbank(run, scratch, stats, tlc_emit):
             run.fail(f"genbank:parse:load_seq:{cls}:{dk}", {**base, "parser": "load_seq(x.gb)", "observed": _show(got)}, what="load_seq(x.gb) returns the first record")
         if i % 97 == 3:
             run.sample({"spec": "SeqFormatsGb", "names": base["names"], "lengths": base["lengths"], "class": cls, "first_lines": text.splitlines()[:4]})
-        for p in (path, gz_path, crlf_path):
+        for p in (path, gz_path, crlf_path, pre_path):
             p.unlink()
     print(f"[C06] SeqFormatsGb: {len(recs)} files, {ncalls} real parser calls, {bad} disagreements with the oracle, {drift} model drifts", flush=True)
     stats["genbank_replay"] = {"files": len(recs), "real_calls": ncalls, "disagreements": bad, "model_drift": drift}
